@@ -413,3 +413,25 @@ package core
 //@   callsite WriteL1HandlerTxnHashByMsgHash@*: through_the_writer: $0 == w
 //@   loop 1: invariant handlers_so_far: (forall j int :: 0 <= j && j <= rangeindex && istype(txns[j], *L1HandlerTransaction) ==> setin(l1Hashed, cast(txns[j], *L1HandlerTransaction))) && (forall x *L1HandlerTransaction :: old(setin(l1Hashed, x)) ==> setin(l1Hashed, x))
 //@   ensures every_handler_indexed: result == nil ==> (forall j int :: 0 <= j && j < len(txns) && istype(txns[j], *L1HandlerTransaction) ==> setin(l1Hashed, cast(txns[j], *L1HandlerTransaction)))
+
+// ---- reverting a block removes every lookup the block wrote (C04) ------------------------------------
+// The body of the loop over the reverted block's transactions (the range-over-func closure
+// DeleteTransactionsAndReceipts$1; arg0 = the transaction, arg1 = the read error): the hash lookup of
+// EVERY transaction is deleted, and for an L1 handler also its message-hash lookup - what
+// WriteL1HandlerMsgHashes wrote when the block was stored - through the revert's own batch.
+//@ extern func github.com/NethermindEth/juno/db/typed.(Bucket).Delete
+//@   logged as BucketDelete
+//@ func DeleteL1HandlerTxnHashByMsgHash
+//@   trusted
+//@   logged as DeleteL1Lookup
+//@ func DeleteTransactionsAndReceipts$1
+//@   props C04
+//@   arith int
+//@   nosafe
+//@   modifies *
+//@   assigns l1Hashed, calls_BucketDelete, arg_BucketDelete_database, calls_DeleteL1Lookup, arg_DeleteL1Lookup_w, arg_DeleteL1Lookup_msgHash
+//@   callsite Delete@*: through_the_batch: $1 == *writer
+//@   callsite DeleteL1HandlerTxnHashByMsgHash@*: through_the_batch: $0 == *writer
+//@   ensures hash_lookup_deleted: arg1 == nil ==> calls_BucketDelete == old(calls_BucketDelete) + 1
+//@   ensures l1_message_lookup_deleted: arg1 == nil && result && istype(arg0, *L1HandlerTransaction) ==> calls_DeleteL1Lookup == old(calls_DeleteL1Lookup) + 1
+//@   ensures read_error_stops: arg1 != nil ==> !result && calls_BucketDelete == old(calls_BucketDelete)
